@@ -19,15 +19,15 @@ Print Assumptions C25_scan_tokens_of_decls.
    lexer (quote is the opening quote, rest what follows it; n = bytes up to and including the
    closing quote), and the fast lexer continues at the same place *)
 Theorem C25_string_decode_agree : forall quote rest bs n,
-  full_decode quote rest = Some (bs, n) -> fast_decode quote rest = Some (bs, skipn n rest).
-Proof. exact string_decode_agree_lemma. Qed.
+  full_decode quote rest = Some (bs, n) -> fast_decode hex_signed quote rest = Some (bs, skipn n rest).
+Proof. exact (string_decode_agree_lemma hex_signed hex_signed_ok). Qed.
 Print Assumptions C25_string_decode_agree.
 
 (* (2') on every input the full lexer accepts the fast lexer sees the same tokens: same text of
    names and numbers, same decoded strings, same symbols; comments dropped *)
 Theorem C25_fast_lex_agree : forall data items, lex data = LDone items ->
-  fast_lex data = Some (ftoks_of_items (strip_bom data) items).
-Proof. exact fast_lex_agree_lemma. Qed.
+  fast_lex hex_signed data = Some (ftoks_of_items (strip_bom data) items).
+Proof. exact (fast_lex_agree_lemma hex_signed hex_signed_ok). Qed.
 Print Assumptions C25_fast_lex_agree.
 
 (* (1) + (2') end to end *)
@@ -35,18 +35,38 @@ Theorem C25_fast_scan_accepted : forall data items ds,
   lex data = LDone items ->
   ftoks_of_items (strip_bom data) items = tokens_of ds ->
   wf_decls ds ->
-  fast_scan data = Some {| r_pkg := package_of ds; r_imports := imports_of ds; r_errs := [] |}.
-Proof. exact fast_scan_accepted_lemma. Qed.
+  fast_scan hex_signed data = Some {| r_pkg := package_of ds; r_imports := imports_of ds; r_errs := [] |}.
+Proof. exact (fast_scan_accepted_lemma hex_signed hex_signed_ok). Qed.
 Print Assumptions C25_fast_scan_accepted.
 
 (* (3) totality: the fuel of the model never runs out, on any byte string *)
-Theorem C25_fast_scan_total : forall data, fast_scan data <> None.
-Proof. exact fast_scan_total_lemma. Qed.
+Theorem C25_fast_scan_total : forall data, fast_scan hex_signed data <> None.
+Proof. exact (fast_scan_total_lemma hex_signed). Qed.
 Print Assumptions C25_fast_scan_total.
 
-Theorem C25_fast_string_total : forall quote rest, fast_decode quote rest <> None.
-Proof. exact fast_string_total_lemma. Qed.
+Theorem C25_fast_string_total : forall quote rest, fast_decode hex_signed quote rest <> None.
+Proof. exact (fast_string_total_lemma hex_signed). Qed.
 Print Assumptions C25_fast_string_total.
+
+(* ---- the same for the scanner after the optional hardening patch (strconv.ParseUint on the digits
+   of hex and unicode escapes, fixes/C25-fastscan-signed-escapes-optional.diff); the check compares the
+   tree with this instance when run with VERIF_C25_MODEL=unsigned ---- *)
+Theorem C25_string_decode_agree_unsigned : forall quote rest bs n,
+  full_decode quote rest = Some (bs, n) -> fast_decode hex_unsigned quote rest = Some (bs, skipn n rest).
+Proof. exact (string_decode_agree_lemma hex_unsigned hex_unsigned_ok). Qed.
+Print Assumptions C25_string_decode_agree_unsigned.
+
+Theorem C25_fast_scan_accepted_unsigned : forall data items ds,
+  lex data = LDone items ->
+  ftoks_of_items (strip_bom data) items = tokens_of ds ->
+  wf_decls ds ->
+  fast_scan hex_unsigned data = Some {| r_pkg := package_of ds; r_imports := imports_of ds; r_errs := [] |}.
+Proof. exact (fast_scan_accepted_lemma hex_unsigned hex_unsigned_ok). Qed.
+Print Assumptions C25_fast_scan_accepted_unsigned.
+
+Theorem C25_fast_scan_total_unsigned : forall data, fast_scan hex_unsigned data <> None.
+Proof. exact (fast_scan_total_lemma hex_unsigned). Qed.
+Print Assumptions C25_fast_scan_total_unsigned.
 
 (* non-vacuity: a file with a public import made of two adjacent literals (one with a hex escape),
    a package, a message whose option value contains the word import inside nested braces, and a
@@ -55,7 +75,7 @@ Print Assumptions C25_fast_string_total.
 Example C25_nonvacuous :
   wf_decls ex_decls /\
   (exists items, lex ex_data = LDone items /\ ftoks_of_items (strip_bom ex_data) items = tokens_of ex_decls) /\
-  fast_scan ex_data =
+  fast_scan hex_signed ex_data =
     Some {| r_pkg := [120; 46; 121];
             r_imports := [ {| im_path := [97; 65; 98]; im_public := true; im_weak := false; im_option := false |};
                            {| im_path := [122]; im_public := false; im_weak := false; im_option := false |} ];
@@ -63,3 +83,11 @@ Example C25_nonvacuous :
   package_of ex_decls = [120; 46; 121] /\
   full_decode 34 [97; 92; 120; 52; 49; 34; 32] = Some ([97; 65], 6%nat).
 Proof. exact fastscan_example. Qed.
+
+(* the one place where the scanner and the full lexer differ lies outside the property: a signed
+   hex escape is an error for the full lexer *)
+Example C25_signed_escape :
+  full_decode 34 [92; 120; 43; 53; 34] = None /\
+  fast_decode hex_signed 34 [92; 120; 43; 53; 34] = Some ([5], []) /\
+  fast_decode hex_unsigned 34 [92; 120; 43; 53; 34] = Some ([92; 120; 43; 53], []).
+Proof. exact signed_escape_example. Qed.
